@@ -62,7 +62,16 @@ UNIT = Unit(
         TypeItem("src/tip_heights.rs", "const", "TIP_909_HEIGHT"), TypeItem("src/tip_heights.rs", "const", "TIP_902_HEIGHT"),
         Fn(SM, "val_iter", impl="SmtMapping", mode="assume", wrap=SMT_WRAP, sig_subst=[("impl Iterator<Item = V> + '_", "Vec<V>")], **smt_val_iter()),
         Fn(S, "seal", impl="UnsealedState", home="C06", implicit_props=("C09", "C06", "C16"), rewrites=[("MUTSELF",)], **st_seal_full(),
-           injects=[Inject(("after", "this = crate::melmint::preseal_melmint(this);"), "proof { lemma_two_pools(this); }"),
+           injects=[Inject(("after", "this = crate::melmint::preseal_melmint(this);"), "proof { lemma_two_pools(this); } let ghost ps1 = this;"),
+                    Inject("before_tail", """proof { broadcast use axiom_reward_not_marker; if !deposit_legacy(self.network, self.height) {
+                        assert forall|h: TxHash| self.coins@.coins.contains_key(#[trigger] spec_marker(h)) implies this.coins@.coins.contains_key(spec_marker(h)) && this.coins@.coins[spec_marker(h)] == self.coins@.coins[spec_marker(h)] by {
+                            assert(ps1.coins@.coins.contains_key(spec_marker(h))); assert(spec_marker(h) != spec_proposer_reward(ps1.height)); }
+                        if markers_ok(self.coins@.coins) { broadcast use axiom_marker_not_output;
+                            assert forall|h: TxHash| this.coins@.coins.contains_key(#[trigger] spec_marker(h)) implies this.coins@.coins[spec_marker(h)].coin_data.covhash == Address(spec_zero_hash()) by {
+                                let m = spec_marker(h); assert(m != spec_proposer_reward(ps1.height));
+                                assert(ps1.coins@.coins.contains_key(m));
+                                assert(!tx_id(m)) by { if tx_id(m) { let tx = choose|tx: Transaction| m.txhash == #[trigger] spec_txhash(tx); assert(spec_fdp_hash(h) != spec_txhash(tx).0); } }
+                                assert(self.coins@.coins.contains_key(m)); } } } }"""),
                     Inject(("before", "if let Some(action) = action"), """proof { let x = this.fee_pool.0; assert((x >> 16) <= 0x1_0000_0000_0000_0000_0000_0000_0000u128) by (bit_vector);
                         broadcast use axiom_reward_not_output; let rid = spec_proposer_reward(this.height);
                         assert(!tx_id(rid)) by { if tx_id(rid) { let tx = choose|tx: Transaction| rid.txhash == #[trigger] spec_txhash(tx); assert(spec_reward_hash(this.height) != spec_txhash(tx).0); } }
@@ -114,6 +123,8 @@ UNIT = Unit(
            ensures=[C("accepted", "res is Ok ==> spec_header(res->Ok_0.0) == block.header && res->Ok_0.1 == block.proposer_action && block_applied(self.0, *block, res->Ok_0.0)", "C06", "C03"),
                     C("inv_next", "res is Ok ==> chain_ok(res->Ok_0.0) && state_inv(res->Ok_0.0) && spec_builtin_pools(res->Ok_0.0) && pools_ok(res->Ok_0.0.pools@) && builtins_live(res->Ok_0.0) && (spec_tip(res->Ok_0.0.network, res->Ok_0.0.height, 180000) ==> builtins_if_present(res->Ok_0.0))", "C16", "C20", "C07",
                       note="the state invariants that apply_block requires of the current sealed state hold again of the state it returns: with GenesisConfig::realize + seal as the base case they hold along every chain of accepted blocks (modulo the assumed envelopes / freshness preconditions; before TIP-902 an ordinary ERG/SYM pool may be emptied, so `builtins_if_present` is inductive only from TIP-902 on)"),
+                    C("markers", "res is Ok && markers_ok(self.0.coins@.coins) && !deposit_legacy(self.0.network, BlockHeight((self.0.height.0 + 1) as u64)) ==> markers_kept(self.0.coins@.coins, res->Ok_0.0.coins@.coins) && markers_ok(res->Ok_0.0.coins@.coins)", "C19",
+                      note="a faucet's dedup marker, once written, is carried by every later block (outside the pre-978392 deposit rule): with create_next_state refusing a faucet whose marker is present, a faucet is accepted at most once over the life of the chain"),
                     C("wrong_header", "res is Err && res->Err_0 is WrongHeader ==> exists|r: UnsealedState<C>| #[trigger] block_applied(self.0, *block, r) && spec_header(r) != block.header", "C06")],
            rewrites=[("R3", 0), ("ANF", "collect", 0, 3, {1: "proof { assert(__c1@ =~= derefseq(__c0@)); assert(__c1@.no_duplicates() && __c1@.to_set() == block.transactions@); }"})],
            injects=[Inject(("after_let", "transactions"), "proof { assert(transactions@.no_duplicates() && transactions@.to_set() == block.transactions@); }"),
@@ -122,7 +133,8 @@ UNIT = Unit(
                     Inject(("after_let", "basis", 1), """proof { lemma_two_pools(basis.0); assert(batch_result(n0, transactions@, mid0)); assert(block_applied(self.0, *block, basis.0));
                         assert(chain_ok(n0)); assert(mid0.history == n0.history && mid0.height == n0.height && mid0.network == n0.network); assert(chain_ok(mid0));
                         assert(basis.0.history == mid0.history && basis.0.height == mid0.height && basis.0.network == mid0.network); assert(chain_ok(basis.0));
-                        assert(state_inv(basis.0) && pools_ok(basis.0.pools@) && builtins_live(basis.0)); }""")]),
+                        assert(state_inv(basis.0) && pools_ok(basis.0.pools@) && builtins_live(basis.0));
+                        assert(n0.coins@.coins == self.0.coins@.coins); }""")]),
         Fn(C_, "new", impl="CoinMapping", mode="assume", **cm_new_abs()),
         Fn(SM, "new", impl="SmtMapping", mode="assume", wrap=SMT_WRAP, **smt_new()),
         Fn(S, "from_block", impl="SealedState", home="C08", implicit_props=("C09", "C08"),
